@@ -18,7 +18,7 @@ instance (n : Int) : Decidable (InRange32 n) := by unfold InRange32; infer_insta
     `value_from_ast` hands it (`litAdmitted`: scalar literals; any literal if the scalar has its own `parse_literal`):
     "the scalar accepted it". Nothing else is known, or needs to be known, about a custom scalar. -/
 def CustomOK (reg : Reg) (n : String) (pv : PV) : Prop :=
-  (∃ v, v.isNull = false ∧ reg.customParse n v = .value pv) ∨ (∃ l, litAdmitted reg n l = true ∧ reg.customParseLiteral n l = .value pv)
+  (∃ v, v.isNull = false ∧ reg.customParse n v = .value pv) ∨ (∃ l vs, litAdmitted reg n l = true ∧ reg.customParseLiteral n vs l = .value pv)
 
 mutual
 /-- `Conforms reg ty v`: the Python value `v` is a legal resolver argument for a position of type `ty`.
@@ -121,7 +121,7 @@ inductive LeafSpell : JV → Lit → Prop
     This is the scalar AUTHOR's obligation; `default_scalar` meets it on strings and booleans only (`parse` is the identity,
     `parse_literal` hands over the literal's TEXT: `5` vs `"5"`). -/
 def CustomAgree (reg : Reg) : Prop :=
-  ∀ n j l, reg.get? n = some .custom → LeafSpell j l → (reg.customParseLiteral n l).toR.toOption = (reg.customParse n j).toR.toOption
+  ∀ n vs j l, reg.get? n = some .custom → LeafSpell j l → (reg.customParseLiteral n vs l).toR.toOption = (reg.customParse n j).toR.toOption
 
 mutual
 /-- `AstOfJson reg ty j l`: `l` is the literal spelling (`astOfJson`) of the JSON value `j` at a position of
